@@ -21,6 +21,7 @@ CANDS = {
     "sys_platform": ["a", "b", "ab"],
     "extra": [frozenset(), frozenset({"e1"}), frozenset({"e2"}), frozenset({"e1", "e2"})],
     "platform_release": ["5.4", "5.10.0", "6.1"],
+    "extras": [frozenset(), frozenset({"t"}), frozenset({"t-x"})],
     "python_full_version": ["3.0.4", "3.6.5", "3.7.0", "3.7.2", "3.7.5", "3.8.0", "3.8.1", "3.9.0", "3.10.1"],
 }
 
@@ -135,6 +136,21 @@ def _apply(dom, J, judge_fn, opn, a, b, results=None):
         J.fail("R-immutable", dom.blame(f"{a.cls.module.name}:{a.cls.name}"),
                f"({_show_key(ka)}) {opn} ({_show_key(kb)}) mutated its {which} operand (now {dom.show(a if which == 'left' else b)}): markers are shared "
                f"(memoised results, children of other markers), so later operations see the change", {"path": dom.path()})
+    if kind == "ok":
+        for atom in _me_atoms(dom, r):
+            seeded = atom.f.get("_specifier")
+            if seeded is None:
+                continue
+            try:
+                fresh = dom.call(atom, "_get_specifier")
+                same = dom.it.py_eq(seeded, fresh) and dom.it.py_eq(fresh, seeded)
+            except PyRaise:
+                continue
+            if not same:
+                J.fail("R-seeded", dom.blame("dep_logic.markers.single:MarkerExpression.from_specifier"),
+                       f"({_show_key(ka)}) {opn} ({_show_key(kb)}) returns the atom {dom.show(atom)} carrying a specifier view that is not the one its own "
+                       f"(name, op, value) denote: later merges use the attached view, while equality, hashing and text use the fields", {"path": dom.path()})
+                break
     try:
         judge_fn(dom, J, opn, a, b, kind, r)
     except Undefined:
@@ -145,6 +161,14 @@ def _apply(dom, J, judge_fn, opn, a, b, results=None):
         if k not in results:
             results[k] = r
     return r if kind == "ok" else None
+
+
+def _me_atoms(dom, m):
+    if m.cls is dom.ME:
+        yield m
+    elif m.cls in (dom.MM, dom.MU):
+        for c in m.f["markers"]:
+            yield from _me_atoms(dom, c)
 
 
 def _show_key(k):
@@ -212,6 +236,7 @@ def explore(chk, judge_name, budget2=None, want_keys=False):
     """run level 1 exhaustively and level 2 up to a budget; feed failures into chk. Returns stats."""
     chk.rule("R-ctor", "operands of the exploration are constructible through the repository's constructors")
     chk.rule("R-immutable", "operators do not mutate their operands (operands are shared objects)")
+    chk.rule("R-seeded", "an atom returned by an operator carries no specifier view other than the one its compared fields denote")
     src = str(chk.src)
     tier = chk.tier
     dom = domain(src)
